@@ -15,7 +15,7 @@ def main():
         names = [n for n in names if any(n.startswith(p) for p in sys.argv[1:])]
     assert sh('git', '-C', REPO, 'status', '--porcelain').stdout.strip() == '', '/repo is not clean'
     out = {}
-    path = os.path.join(HERE, 'seeded', 'REGRESSION.json')
+    path = os.environ.get('REGRESS_OUT') or os.path.join(HERE, 'seeded', 'REGRESSION.json')
     if os.path.exists(path):
         out = json.load(open(path))
     for n in names:
